@@ -1208,3 +1208,82 @@ func execC05Cfg(in sx.V) sx.V {
 	}
 	return sx.L(out...)
 }
+
+// ---- round 6: lookups through the other helpers of the anchor files ------------------
+
+// c05.find: (cell key) -> ('found value) | 'err : tlb.ProveKeyInHashmap as a lookup
+func execC05Find(in sx.V) sx.V {
+	root, ok := c05BocOfSx(in.List[0])
+	if !ok {
+		return sx.L(sx.A("harness-error"), sx.A("cell"))
+	}
+	prover, err := boc.NewMerkleProver(root)
+	if err != nil {
+		return sx.A("err")
+	}
+	v, proof, err := tlb.ProveKeyInHashmap[tlb.Uint32](prover, root, c05BitString(in.List[1].Bits))
+	if err != nil {
+		return sx.A("err")
+	}
+	if len(proof) == 0 {
+		return sx.A("no-proof")
+	}
+	return sx.L(sx.A("found"), sx.N(uint64(v)))
+}
+
+// c05.bal: (split left right) -> ((key grams)...) in key order : ShardState.AccountBalances
+func execC05Bal(in sx.V) sx.V {
+	accounts := func(v sx.V) tlb.HashmapAugE[tlb.Bits256, tlb.ShardAccount, tlb.DepthBalanceInfo] {
+		var keys []tlb.Bits256
+		var values []tlb.ShardAccount
+		for _, x := range v.List {
+			k, _ := c05KeyFromBits[tlb.Bits256](x.List[0].Bits)
+			var a tlb.ShardAccount
+			switch {
+			case x.List[1].K == sx.KN:
+				a.Account.SumType = "Account"
+				a.Account.Account.Storage.Balance.Grams = tlb.Grams(x.List[1].U64())
+			case x.List[1].IsA("accnone"):
+				a.Account.SumType = "AccountNone"
+			}
+			keys = append(keys, k)
+			values = append(values, a)
+		}
+		return tlb.VerifNewHashmapAugE[tlb.Bits256, tlb.ShardAccount, tlb.DepthBalanceInfo](keys, values)
+	}
+	var s tlb.ShardState
+	if in.List[0].Bool {
+		s.SumType = "SplitState"
+		s.SplitState.Left.ShardStateUnsplit.Accounts = accounts(in.List[1])
+		s.SplitState.Right.ShardStateUnsplit.Accounts = accounts(in.List[2])
+	} else {
+		s.SumType = "UnsplitState"
+		s.UnsplitState.Value.ShardStateUnsplit.Accounts = accounts(in.List[1])
+	}
+	got := s.AccountBalances()
+	again := s.AccountBalances() // a second call answers the same
+	var items []c05KV64
+	for k, c := range got {
+		kb, _ := c05KeyBits(k)
+		if c2, ok := again[k]; !ok || c2.Grams != c.Grams || len(again) != len(got) {
+			return sx.A("unstable")
+		}
+		items = append(items, c05KV64{kb, uint64(c.Grams)})
+	}
+	sort.Slice(items, func(i, j int) bool { return items[i].k < items[j].k })
+	var out []sx.V
+	for _, it := range items {
+		out = append(out, sx.L(sx.Bits(it.k), sx.N(it.v)))
+	}
+	return sx.L(out...)
+}
+
+type c05KV64 struct {
+	k string
+	v uint64
+}
+
+func init() {
+	execs["c05.find"] = execC05Find
+	execs["c05.bal"] = execC05Bal
+}
